@@ -243,23 +243,16 @@ Section Proofs.
        iters (out_report (optimize tol max_iter vb s)) = [] /\
        num_iterations (out_report (optimize tol max_iter vb s)) = None).
   Proof.
-    intros tol max_iter vb s. repeat split.
-    - rewrite (optimize_early tol max_iter vb s K H). reflexivity.
-    - rewrite (optimize_early tol max_iter vb s K H). reflexivity.
-    - rewrite (optimize_early tol max_iter vb s K H). unfold out_report. simpl.
+    intros tol max_iter vb s.
+    split; [|split; [|split]].
+    - intros K HK. rewrite (optimize_early tol max_iter vb s K HK). unfold out_report, out_state. simpl.
+      split; [reflexivity|]. split; [reflexivity|]. split; [|split; reflexivity].
       rewrite app_length, spec_iters_length. simpl. lia.
-    - rewrite (optimize_early tol max_iter vb s K H). reflexivity.
-    - rewrite (optimize_early tol max_iter vb s K H). reflexivity.
-    - rewrite (optimize_full tol max_iter vb s H H0). reflexivity.
-    - rewrite (optimize_full tol max_iter vb s H H0). reflexivity.
-    - rewrite (optimize_full tol max_iter vb s H H0). unfold out_report. simpl. apply spec_iters_length.
-    - rewrite (optimize_full tol max_iter vb s H H0). reflexivity.
-    - rewrite (optimize_full tol max_iter vb s H H0). reflexivity.
+    - intros Hpos Hno. rewrite (optimize_full tol max_iter vb s Hpos Hno). unfold out_report, out_state. simpl.
+      split; [reflexivity|]. split; [reflexivity|]. split; [|split; reflexivity].
+      apply spec_iters_length.
     - apply stop_cases.
-    - subst max_iter. reflexivity.
-    - subst max_iter. reflexivity.
-    - subst max_iter. reflexivity.
-    - subst max_iter. reflexivity.
+    - intros Hz. subst max_iter. split; [reflexivity|]. split; [reflexivity|]. split; reflexivity.
   Qed.
 
   (* ---- verbose ---- *)
@@ -280,8 +273,9 @@ Section Proofs.
     (0 < max_iter -> out_lines (optimize tol max_iter true s) = verbose_lines (out_report (optimize tol max_iter true s))).
   Proof.
     intros tol max_iter s. destruct max_iter as [|n].
-    - repeat split. intros H. lia.
-    - repeat split. intros _. unfold OptLoop.optimize, out_lines, out_report, verbose_lines. simpl.
+    - split; [reflexivity|]. split; [reflexivity|]. split; [reflexivity|]. intros Hpos. lia.
+    - split; [reflexivity|]. split; [reflexivity|]. split; [reflexivity|]. intros _.
+      unfold OptLoop.optimize, out_lines, out_report, verbose_lines. simpl.
       rewrite run_lines_written. reflexivity.
   Qed.
 
